@@ -43,3 +43,207 @@ def mentions_field(e, name, owner_pat=None):
 
 def mentions_call(e, *pats):
     return any(isinstance(x, tuple) and x[0] == 'call' and glob_any(x[1], pats) for x in walk(e))
+
+
+# ---- GATE -------------------------------------------------------------------------------------------
+from .dataflow import flow_forward
+from .facts import norm, const_of
+
+ADAPTORS = (
+    '<* as core::ops::try_trait::Try>::branch', 'core::result::Result::map_err', 'core::result::Result::map',
+    'core::result::Result::is_ok', 'core::result::Result::is_err', 'core::option::Option::is_some',
+    'core::option::Option::is_none', 'core::result::Result::ok', 'core::option::Option::ok_or',
+    'core::option::Option::ok_or_else', 'core::result::Result::and_then', 'core::option::Option::map',
+    'core::option::Option::as_ref', 'core::result::Result::as_ref', 'core::option::Option::and_then',
+)
+SUCCESS = {'Ok', 'Some', 'Continue', 'Ready'}
+FAILURE = {'Err', 'None', 'Break'}
+
+
+def _adaptor_call(t):
+    c = const_of(t['func'])
+    if not c or 'fn' not in c:
+        return False
+    s = norm(c.get('resolved') or c['fn'])
+    g = norm(c['fn'])
+    return glob_any(s, ADAPTORS) or glob_any(g, ADAPTORS)
+
+
+def _bool_polarity(e):
+    """(+1|-1|0): whether `e == true` means success of the underlying Result/Option."""
+    pol = 1
+    while isinstance(e, tuple):
+        if e[0] == 'un' and e[1] == 'Not':
+            pol = -pol
+            e = e[2]
+            continue
+        if e[0] == 'call':
+            last = e[1].rsplit('::', 1)[-1]
+            if last in ('is_ok', 'is_some'):
+                return pol
+            if last in ('is_err', 'is_none'):
+                return -pol
+            return 0
+        return 0
+    return 0
+
+
+def gate(prog, fn, g_bb, b_bb, success=None, unwind=False):
+    """GATE(F; g => b): the outcome of the call in block g_bb gates block b_bb — there is a switch
+    S with g dom S dom b whose discriminant derives from g's result and every arm of S from which
+    b is reachable is a *success* arm of that result. Returns (ok: bool, why: str)."""
+    g = cfg(fn, unwind)
+    t = fn.blocks[g_bb]['term']
+    if t['k'] != 'call' or t.get('dst') is None:
+        return False, 'bb%d is not a call with a result' % g_bb
+    if not g.dominates(g_bb, b_bb):
+        return False, 'the call does not dominate the site'
+    tainted = flow_forward(fn, {t['dst']['l']}, through_calls=_adaptor_call)
+    success = set(success) if success else SUCCESS
+    idom = g.idom()
+    x = b_bb
+    chain = []
+    while x != g_bb and x != 0:
+        x = idom[x]
+        chain.append(x)
+    reasons = []
+    for s in chain:
+        tt = fn.blocks[s]['term']
+        if tt['k'] != 'switch':
+            continue
+        p = place_of_local(tt['discr'])
+        if p is None or p not in tainted:
+            continue
+        if not g.dominates(g_bb, s):
+            continue
+        from .expr import switch_info
+        e, kind, labels, adt = switch_info(prog, fn, s)
+        arms = g.switch_arms_reaching(s, [b_bb])
+        reach = [a for a in arms if a[2]]
+        if len(reach) == len(arms):
+            continue  # not a gate: all arms reach b
+        if kind == 'enum':
+            labs = [labels.get(a[0], a[0]) for a in reach]
+            if all(l in success for l in labs):
+                return True, 'switch at bb%d on %s: only arm(s) %s reach the site' % (s, show(e)[:80], labs)
+            reasons.append('switch at bb%d: arm(s) %s reach the site' % (s, labs))
+        elif kind == 'bool':
+            pol = _bool_polarity(e)
+            vals = [labels.get(a[0], a[0]) for a in reach]
+            if pol != 0 and all((v is True) == (pol > 0) for v in vals):
+                return True, 'bool switch at bb%d on %s: only the success arm reaches the site' % (s, show(e)[:80])
+            reasons.append('bool switch at bb%d on %s: arm(s) %s reach the site' % (s, show(e)[:80], vals))
+    return False, '; '.join(reasons) or 'no switch on the call\'s result between the call and the site'
+
+
+def place_of_local(op):
+    from .facts import place_of
+    p = place_of(op)
+    if p is None or p['p']:
+        return None if p is None else p['l']
+    return p['l']
+
+
+def first_call(fn, *pats, ctx=None, rule=None, key=None):
+    cs = [c for c in fn.calls_to(*pats) if not c.cleanup]
+    if not cs and ctx is not None:
+        ctx.unknown(rule, key or ('anchor-call:%s->%s' % (fn.short, pats[0])), fn, 'no call to %s in %s' % (pats, fn.short))
+    return cs
+
+
+def require_callers(ctx, rule, key, pats, allowed, floor=1, desc=None):
+    """CALLERS(pats) ⊆ allowed (short ids of the *root* function of each call site)."""
+    prog = ctx.prog
+    cs = prog.callers(*pats)
+    ctx.saw_calls(len(cs))
+    roots = {}
+    for c in cs:
+        r = prog.root_of(c.fn)
+        roots.setdefault(r.short, []).append(c)
+        ctx.touch(c.fn)
+    extra = sorted(s for s in roots if not glob_any(s, allowed))
+    name = desc or pats[0]
+    if extra:
+        c = roots[extra[0]][0]
+        ctx.bad(rule, key, c, 'unexpected caller(s) of %s: %s (allowed: %s)' % (name, extra, sorted(allowed)))
+    else:
+        ctx.ok(rule, key, cs[0] if cs else '', 'callers of %s = %s' % (name, sorted(roots)))
+    if len(cs) < floor:
+        ctx.unknown(rule, key + ':floor', '', 'only %d call site(s) of %s found (floor %d)' % (len(cs), name, floor))
+    return cs
+
+
+def require_writers(ctx, rule, key, adt_pat, field, allowed, floor=1):
+    """WRITERS(adt.field) ⊆ allowed root functions."""
+    from .dataflow import writers
+    prog = ctx.prog
+    ws = writers(prog, adt_pat, field)
+    roots = {}
+    for w in ws:
+        r = prog.root_of(w.fn)
+        roots.setdefault(r.short, []).append(w)
+        ctx.touch(w.fn)
+    extra = sorted(s for s in roots if not glob_any(s, allowed))
+    if extra:
+        ctx.bad(rule, key, roots[extra[0]][0], 'unexpected writer(s) of %s.%s: %s (allowed: %s)' % (adt_pat, field, extra, sorted(allowed)))
+    else:
+        ctx.ok(rule, key, ws[0] if ws else '', 'writers of %s.%s = %s' % (adt_pat, field, sorted(roots)))
+    if len(roots) < floor:
+        ctx.unknown(rule, key + ':floor', '', 'only %d writer(s) of %s.%s found (floor %d)' % (len(roots), adt_pat, field, floor))
+    return roots
+
+
+# ---- assignment tables ----------------------------------------------------------------------------
+def local_assignments(prog, fn, l):
+    """[(bb, expr)] for every whole assignment of local l (statement or call destination)."""
+    from .expr import defs
+    e = ex(prog, fn)
+    out = []
+    for d in defs(fn).whole[l]:
+        out.append((d[0], e.def_expr(d)))
+    return out
+
+
+def field_assignments(prog, fn, adt_pat, field):
+    """[(bb, line, expr)] for every assignment whose destination ends in field `field` of adt."""
+    from .dataflow import _ends_with_field
+    e = ex(prog, fn)
+    out = []
+    for bi, b in enumerate(fn.blocks):
+        if b.get('cleanup'):
+            continue
+        for st in b['stmts']:
+            if 'rv' in st and _ends_with_field(st['dst'], adt_pat, field):
+                out.append((bi, st.get('line'), e.rvalue(st['rv'])))
+        t = b['term']
+        if t['k'] == 'call' and t.get('dst') and _ends_with_field(t['dst'], adt_pat, field):
+            out.append((bi, t.get('line'), e.call_expr(t)))
+    return out
+
+
+def unwrap_some(e):
+    if isinstance(e, tuple) and e[0] == 'agg' and e[3] == 'Some' and e[4]:
+        return e[4][0][1]
+    return None
+
+
+def agg_variant(e):
+    return e[3] if isinstance(e, tuple) and e[0] == 'agg' else None
+
+
+def agg_field(e, name):
+    if isinstance(e, tuple) and e[0] == 'agg':
+        for n, v in e[4]:
+            if n == name:
+                return v
+    return None
+
+
+def cond_variants(prog, fn, bb):
+    """set of 'Variant' labels of enum conditions on bb's dominator chain."""
+    out = set()
+    for c in conditions(prog, fn, bb):
+        if c['kind'] == 'enum' and len(c['taken']) >= 1:
+            for t in c['taken']:
+                out.add(str(t))
+    return out
